@@ -599,6 +599,46 @@ func blindCase(t *rapid.T, ks []poolKey, v blindrsa.Variant) {
 		}
 		vlib.NonTrivial(subS, "refused="+b.kind, []byte(k.name), b.data)
 	}
+	// (Q) a further round with another message on the SAME Client / Signer objects
+	{
+		subQ := "blindrsa-rounds/" + name
+		msg2 := vlib.Msg(t, "msg2")
+		prefix2 := vlib.EdgeBytes(t, prefixLen, "prefix2")
+		salt2 := vlib.EdgeBytes(t, saltLen, "salt2")
+		seed3 := rapid.Uint64().Draw(t, "blind3")
+		vlib.Eval(subQ)
+		desc2 := fmt.Sprintf("%s | round 2 on the same Client/Signer: msg=%x prefix=%x salt=%x blindSeed=%d", desc, msg2, prefix2, salt2, seed3)
+		prep2, err := client.Prepare(bytes.NewReader(prefix2), msg2)
+		if err != nil {
+			vlib.Report(t, "C18/blindrsa/"+name+"/rounds/Prepare", desc2+": "+err.Error())
+			return
+		}
+		bm, st2, err := client.Blind(blindReader(salt2, seed3, false), prep2)
+		if err != nil {
+			vlib.Report(t, "C18/blindrsa/"+name+"/rounds/Blind", desc2+": "+err.Error())
+			return
+		}
+		bs, err := signer.BlindSign(bm)
+		if err != nil {
+			vlib.Report(t, "C18/blindrsa/"+name+"/rounds/BlindSign", desc2+": "+err.Error())
+			return
+		}
+		sig2, err := client.Finalize(st2, bs)
+		if err != nil {
+			vlib.Report(t, "C18/blindrsa/"+name+"/rounds/Finalize-fails-on-honest-run", desc2+": "+err.Error())
+			return
+		}
+		if err := rsa.VerifyPSS(pk, crypto.SHA384, sha384(prep2), sig2, &rsa.PSSOptions{SaltLength: saltLen, Hash: crypto.SHA384}); err != nil {
+			vlib.Report(t, "C18/blindrsa/"+name+"/rounds/crypto-rsa-rejects", fmt.Sprintf("%s: sig=%x: %v", desc2, sig2, err))
+			return
+		}
+		// the first round's state must still finalise its own blind signature (states are independent)
+		if again, err := client.Finalize(st, blindSig); err != nil || !bytes.Equal(again, sig) {
+			vlib.Report(t, "C18/blindrsa/"+name+"/rounds/first-state-disturbed", fmt.Sprintf("%s: err=%v", desc2, err))
+			return
+		}
+		vlib.NonTrivial(subQ, "second-round-same-objects", []byte(name), []byte(k.name), prep2, salt2, vlib.BE(new(big.Int).SetUint64(seed3), 8))
+	}
 }
 
 // ---------------------------------------------------------------------------
@@ -641,7 +681,7 @@ func TestC18PartiallyBlind(t *testing.T) {
 	defer vlib.Done()
 	selftest(t)
 	ks := mustPool(t)
-	vlib.Check(t, vlib.N(300, 900), func(t *rapid.T) { pbCase(t, ks) })
+	vlib.Check(t, vlib.N(300, 600), func(t *rapid.T) { pbCase(t, ks) })
 }
 
 func pbCase(t *rapid.T, ks []poolKey) {
@@ -651,14 +691,16 @@ func pbCase(t *rapid.T, ks []poolKey) {
 	N := pk.N
 	h := rapid.SampledFrom(pbHashes(k.bits)).Draw(t, "hash")
 	msg := vlib.Msg(t, "msg")
+	// the caller's metadata lives in ONE buffer that is overwritten in place between protocol rounds
+	mdBuf := make([]byte, 64)
 	var md []byte
 	switch rapid.IntRange(0, 3).Draw(t, "mdKind") {
 	case 0:
-		md = []byte{}
+		md = mdBuf[:0]
 	case 1:
-		md = []byte("metadata")
+		md = mdBuf[:copy(mdBuf, "metadata")]
 	default:
-		md = vlib.Bytes(t, 0, 64, "md")
+		md = mdBuf[:copy(mdBuf, vlib.Bytes(t, 0, 64, "md"))]
 	}
 	salt := vlib.EdgeBytes(t, h.Size(), "salt")
 	r1, r1inv := drawBlind(t, N, "r1")
@@ -793,6 +835,68 @@ func pbCase(t *rapid.T, ks []poolKey) {
 			return
 		}
 		vlib.NonTrivial(subS, "refused="+b.kind, []byte(k.name), b.data, md)
+	}
+	// (Q) further protocol rounds on the SAME Signer / Verifier objects, with the metadata buffer
+	// overwritten in place between rounds (same length, other length, an earlier value again): every
+	// round must finalise and verify under the reference with the metadata of THAT round.
+	history := [][]byte{append([]byte{}, md...)}
+	nr := rapid.IntRange(2, 3).Draw(t, "rounds")
+	for rd := 0; rd < nr; rd++ {
+		subQ := "pbrsa-rounds"
+		kinds := []string{"same-length", "same-length", "other-length", "repeat-earlier"}
+		kind := rapid.SampledFrom(kinds).Draw(t, fmt.Sprintf("round%d", rd))
+		if kind == "same-length" && len(md) == 0 {
+			kind = "other-length"
+		}
+		switch kind {
+		case "same-length":
+			old := append([]byte{}, md...)
+			vlib.FillRandom(t, md, fmt.Sprintf("md%d", rd)) // in place
+			if bytes.Equal(old, md) {
+				md[0] ^= 1
+			}
+		case "other-length":
+			n := rapid.IntRange(0, 64).Draw(t, fmt.Sprintf("mdlen%d", rd))
+			md = mdBuf[:n]
+			if n > 0 {
+				vlib.FillRandom(t, md, fmt.Sprintf("md%d", rd))
+			}
+		default:
+			prev := history[rapid.IntRange(0, len(history)-1).Draw(t, fmt.Sprintf("prev%d", rd))]
+			md = mdBuf[:copy(mdBuf, prev)]
+		}
+		mdCopy := append([]byte{}, md...)
+		history = append(history, mdCopy)
+		msgR := vlib.Msg(t, fmt.Sprintf("msg%d", rd))
+		saltR := vlib.EdgeBytes(t, h.Size(), fmt.Sprintf("salt%d", rd))
+		rR, rRinv := drawBlind(t, N, fmt.Sprintf("rr%d", rd))
+		vlib.Eval(subQ)
+		descR := fmt.Sprintf("%s | round %d on the same Signer/Verifier: metadata buffer %s → %x (history %x) msg=%x salt=%x r=%x", desc, rd+2, kind, mdCopy, history, msgR, saltR, rR)
+		bm, stR, err := verifier.FixedBlind(msgR, md, saltR, rR.Bytes(), rRinv.Bytes())
+		if err != nil {
+			vlib.Report(t, "C18/pbrsa/rounds/FixedBlind", descR+": "+err.Error())
+			return
+		}
+		bs, err := signer.BlindSign(bm, md)
+		if err != nil {
+			vlib.Report(t, "C18/pbrsa/rounds/BlindSign", descR+": "+err.Error())
+			return
+		}
+		sigR, err := stR.Finalize(bs)
+		if err != nil {
+			vlib.Report(t, "C18/pbrsa/rounds/Finalize-fails-on-honest-run", descR+": "+err.Error())
+			return
+		}
+		if err := verifier.Verify(msgR, md, sigR); err != nil {
+			vlib.Report(t, "C18/pbrsa/rounds/own-verifier-rejects", descR+": "+err.Error())
+			return
+		}
+		eR, _ := derived(k, h, mdCopy)
+		if _, err := pss.Verify(N, eR, h, digest(h, pss.PBRSAMessage(msgR, mdCopy)), sigR, h.Size()); err != nil {
+			vlib.Report(t, "C18/pbrsa/rounds/not-a-PSS-signature-under-derived-key", fmt.Sprintf("%s: sig=%x", descR, sigR))
+			return
+		}
+		vlib.NonTrivial(subQ, "round:"+kind, []byte(k.name), []byte(h.String()), msgR, mdCopy, saltR, rR.Bytes(), []byte(fmt.Sprint(history)))
 	}
 }
 
